@@ -63,8 +63,8 @@ Definition run_nosource : jv :=
 Definition jv_usage (u : usage) : jv :=
   JL [ JZ (u_total u); JZ (u_used u); JZ (u_free u);
        jopt (fun p => JL [JZ (fst p); JZ (snd p)]) (u_percent u) ].
-Definition run_usage (frsize blocks bfree bavail : Z) : jv :=
-  let st := Build_statvfs frsize blocks bfree bavail in
+Definition run_usage (bsize frsize blocks bfree bavail : Z) : jv :=
+  let st := Build_statvfs bsize frsize blocks bfree bavail in
   JL [ jv_usage (disk_usage st); jv_usage (spec_usage st) ].
 
 (* decimal printer used by the case generator only (keeps generated terms small) *)
